@@ -433,10 +433,278 @@ theorem cart_volumes_sum_3d (x0 y0 z0 : Rat) (xs ys zs : List Rat)
       = (lastD xs x0 - x0) * (lastD ys y0 - y0) * (lastD zs z0 - z0) :=
   cart_volumes_sum_3d_aux x0 y0 z0 xs ys zs hxs hys hzs
 
+/-! ## legacy (non-oriented) 2-D path -/
+
+/-- The legacy path of `_compute_geometry_2d` for one cell, under the assumption the code makes (cell convex,
+    or at least star-shaped about the temporary centre `c`, so that the faces, each taken counter-clockwise as
+    seen from `c`, form closed loops): whatever the stored node order and signs of the faces are, with the
+    normals `legacyN` flipped by the cell-centre test, the absolute sub-triangle volumes `wAbs` and the moments
+    built from them, the closed-cell, volume and centroid identities hold about every reference point `o`. -/
+theorem legacy_cell_identities (c o : P2) (fs : List OFace) (hs : ∀ f ∈ fs, f.s = 1 ∨ f.s = -1)
+    (hχ : ∀ f ∈ fs, f.chi c ≠ 0) (hcl : Closed (fs.map (reorient c))) :
+    (sumf (fun f => f.s * legacyNx c f) fs = 0 ∧ sumf (fun f => f.s * legacyNy c f) fs = 0)
+    ∧ sumf (fun f => f.s * ((f.mx - o.x) * legacyNx c f + (f.my - o.y) * legacyNy c f)) fs
+        = 2 * cellAreaW (wAbs c) fs
+    ∧ sumf (fun f => f.s * ((f.mx - o.x) * legacyNx c f + (f.my - o.y) * legacyNy c f) * (f.mx - o.x)) fs
+        = 3 * (cellMomXW (wAbs c) c fs - cellAreaW (wAbs c) fs * o.x)
+    ∧ sumf (fun f => f.s * ((f.mx - o.x) * legacyNx c f + (f.my - o.y) * legacyNy c f) * (f.my - o.y)) fs
+        = 3 * (cellMomYW (wAbs c) c fs - cellAreaW (wAbs c) fs * o.y) := by
+  have hA : cellAreaW (wAbs c) fs = cellArea 1 c (fs.map (reorient c)) := by
+    unfold cellArea cellAreaW; rw [sumf_map]
+    exact sumf_congr (fun f hf => (legacy_side c f (hs f hf) (hχ f hf)).2.2.1)
+  have hMx : cellMomXW (wAbs c) c fs = cellMomX 1 c (fs.map (reorient c)) := by
+    unfold cellMomX cellMomXW; rw [sumf_map]
+    apply sumf_congr; intro f hf
+    rw [(legacy_side c f (hs f hf) (hχ f hf)).2.2.1, reorient_mx]
+  have hMy : cellMomYW (wAbs c) c fs = cellMomY 1 c (fs.map (reorient c)) := by
+    unfold cellMomY cellMomYW; rw [sumf_map]
+    apply sumf_congr; intro f hf
+    rw [(legacy_side c f (hs f hf) (hχ f hf)).2.2.1, reorient_my]
+  obtain ⟨hcx, hcy⟩ := closed_cell 1 _ hcl
+  have har := area_identity 1 c o _ hcl
+  obtain ⟨hmx, hmy⟩ := centroid_identity 1 c o _ hcl
+  rw [sumf_map] at hcx hcy har hmx hmy
+  rw [hA, hMx, hMy]
+  refine ⟨⟨?_, ?_⟩, ?_, ?_, ?_⟩
+  · rw [← hcx]; apply sumf_congr; intro f hf
+    rw [(legacy_side c f (hs f hf) (hχ f hf)).1, reorient_s]; ring
+  · rw [← hcy]; apply sumf_congr; intro f hf
+    rw [(legacy_side c f (hs f hf) (hχ f hf)).2.1, reorient_s]; ring
+  · rw [← har]; apply sumf_congr; intro f hf
+    have h1 := (legacy_side c f (hs f hf) (hχ f hf)).1
+    have h2 := (legacy_side c f (hs f hf) (hχ f hf)).2.1
+    rw [reorient_s, reorient_mx, reorient_my, ← h1, ← h2]; ring
+  · rw [← hmx]; apply sumf_congr; intro f hf
+    have h1 := (legacy_side c f (hs f hf) (hχ f hf)).1
+    have h2 := (legacy_side c f (hs f hf) (hχ f hf)).2.1
+    rw [reorient_s, reorient_mx, reorient_my, ← h1, ← h2]; ring
+  · rw [← hmy]; apply sumf_congr; intro f hf
+    have h1 := (legacy_side c f (hs f hf) (hχ f hf)).1
+    have h2 := (legacy_side c f (hs f hf) (hχ f hf)).2.1
+    rw [reorient_s, reorient_mx, reorient_my, ← h1, ← h2]; ring
+
+/-- … and sign · normal points away from `c` for every face (`= |cross(x_f − c, t)| > 0`), with positive
+    sub-volumes, hence positive cell volume for a non-empty cell. -/
+theorem legacy_outward (c : P2) (f : OFace) (hs : f.s = 1 ∨ f.s = -1) (hχ : f.chi c ≠ 0) :
+    f.s * (legacyNx c f * (f.mx - c.x) + legacyNy c f * (f.my - c.y)) = absR (f.chi c)
+    ∧ 0 < wAbs c f := by
+  obtain ⟨h1, h2, h3, h4⟩ := legacy_side c f hs hχ
+  have := outward_iff_subvolume_pos 1 c (reorient c f)
+  constructor
+  · rw [reorient_s, reorient_mx, reorient_my, ← h1, ← h2, ← h3] at this
+    linarith
+  · have := absR_pos hχ
+    linarith
+
+
+theorem legacy_volume_pos (c : P2) (fs : List OFace) (hne : fs ≠ []) (hs : ∀ f ∈ fs, f.s = 1 ∨ f.s = -1)
+    (hχ : ∀ f ∈ fs, f.chi c ≠ 0) : 0 < cellAreaW (wAbs c) fs :=
+  sumf_pos hne (fun f hf => (legacy_outward c f (hs f hf) (hχ f hf)).2)
+
+/-- The closedness assumption holds for every polygon that is star-shaped and counter-clockwise about `c`
+    (in particular every convex one with `c` inside), however its faces are stored: node order reversed or
+    not (`k.1`) and with any sign (`k.2`). -/
+theorem legacy_polygon_closed (c : P2) (vs : List P2) (ch : List (Bool × Rat))
+    (hlen : ch.length = (polyFaces vs).length) (hstar : ∀ f ∈ polyFaces vs, 0 < f.chi c) :
+    Closed ((List.zipWith (fun f k => redirect k.1 k.2 f) (polyFaces vs) ch).map (reorient c)) := by
+  rw [legacy_scrambled_aux c (polyFaces vs) ch hlen]
+  · exact polygon_closed vs
+  · intro f hf
+    refine ⟨?_, hstar f hf⟩
+    simp only [polyFaces, List.mem_map] at hf
+    obtain ⟨e, _, rfl⟩ := hf
+    rfl
+
+/-- Grid level: on the legacy path the model stores for face `e.1` the normal `tangent × (0,0,1)`, reversed when
+    `faceFlipped`; if the decision of the face equals the decision of this side (the two sides agree — the
+    code's convexity assumption), this is the per-side normal `legacyN` of the theorems above. -/
+theorem legacy_grid_normal (g : Grid2) (c : List (Nat × Rat)) (e : Nat × Rat)
+    (hagree : g.faceFlipped e.1 = g.sideFlips c e) :
+    (if g.faceFlipped e.1 then -((g.oface e).nx 1) else (g.oface e).nx 1)
+        = legacyNx (tempCenter (g.cellOFaces c)) (g.oface e)
+    ∧ (if g.faceFlipped e.1 then -((g.oface e).ny 1) else (g.oface e).ny 1)
+        = legacyNy (tempCenter (g.cellOFaces c)) (g.oface e) := by
+  have hs : (g.oface e).s = e.2 := rfl
+  have key : e.2 * (((g.oface e).mx - (tempCenter (g.cellOFaces c)).x) * (g.oface e).nx 1
+        + ((g.oface e).my - (tempCenter (g.cellOFaces c)).y) * (g.oface e).ny 1)
+      = (g.oface e).s * (g.oface e).chi (tempCenter (g.cellOFaces c)) := by
+    rw [hs]; simp only [OFace.chi, OFace.nx, OFace.ny]; ring
+  rw [hagree]
+  unfold Grid2.sideFlips legacyNx legacyNy
+  simp only [key, decide_eq_true_eq]
+  refine ⟨?_, ?_⟩ <;> trivial
+
+/-! ## embedded grids (rigid motion of the planar / line model) -/
+
+/-- embedded 2-D cell: all identities for the image of a closed planar cell under `x ↦ R x + b`, `RᵀR = 1`,
+    positions measured from the image of `o` (a point of the grid's plane) -/
+theorem embedded_cell_identities (R : M3) (b : P3) (hR : R.Orth) (p : Rat) (c o : P2) (fs : List OFace) (h : Closed fs) :
+    (∀ f : OFace, (p = 1 ∨ p = -1) → (embedV R ⟨f.nx p, f.ny p⟩).dot (embedV R ⟨f.nx p, f.ny p⟩) = f.len2)
+    ∧ sum3 (fun f => P3.smul f.s (embedV R ⟨f.nx p, f.ny p⟩)) fs = P3.zero
+    ∧ sumf (fun f => f.s * ((embedP R b ⟨f.mx, f.my⟩).sub (embedP R b o)).dot (embedV R ⟨f.nx p, f.ny p⟩)) fs
+        = 2 * cellArea p c fs
+    ∧ sum3 (fun f => P3.smul (f.s * ((embedP R b ⟨f.mx, f.my⟩).sub (embedP R b o)).dot (embedV R ⟨f.nx p, f.ny p⟩))
+          ((embedP R b ⟨f.mx, f.my⟩).sub (embedP R b o))) fs
+        = P3.smul 3 (embedV R ⟨cellMomX p c fs - cellArea p c fs * o.x, cellMomY p c fs - cellArea p c fs * o.y⟩) := by
+  have hdot : ∀ f : OFace, ((embedP R b ⟨f.mx, f.my⟩).sub (embedP R b o)).dot (embedV R ⟨f.nx p, f.ny p⟩)
+      = (f.mx - o.x) * f.nx p + (f.my - o.y) * f.ny p := by
+    intro f; rw [embedP_sub, embedV_dot R hR]
+  refine ⟨?_, ?_, ?_, ?_⟩
+  · intro f hp
+    rw [embedV_dot R hR]
+    exact normal_length_is_area_sq p hp f
+  · have := sum3_smul_embedV R (fun f : OFace => f.s) (fun f => f.nx p) (fun f => f.ny p) fs
+    rw [this, (closed_cell p fs h).1, (closed_cell p fs h).2]
+    ext <;> simp [embedV, M3.mulVec, lift, P3.dot]
+  · rw [← area_identity p c o fs h]
+    apply sumf_congr; intro f _; rw [hdot]
+  · have e1 : ∀ f ∈ fs, P3.smul (f.s * ((embedP R b ⟨f.mx, f.my⟩).sub (embedP R b o)).dot (embedV R ⟨f.nx p, f.ny p⟩))
+          ((embedP R b ⟨f.mx, f.my⟩).sub (embedP R b o))
+        = P3.smul (f.s * ((f.mx - o.x) * f.nx p + (f.my - o.y) * f.ny p)) (embedV R ⟨f.mx - o.x, f.my - o.y⟩) := by
+      intro f _; rw [hdot, embedP_sub]
+    have : sum3 (fun f => P3.smul (f.s * ((embedP R b ⟨f.mx, f.my⟩).sub (embedP R b o)).dot (embedV R ⟨f.nx p, f.ny p⟩))
+          ((embedP R b ⟨f.mx, f.my⟩).sub (embedP R b o))) fs
+        = sum3 (fun f => P3.smul (f.s * ((f.mx - o.x) * f.nx p + (f.my - o.y) * f.ny p)) (embedV R ⟨f.mx - o.x, f.my - o.y⟩)) fs := by
+      clear h
+      induction fs with
+      | nil => rfl
+      | cons a l ih =>
+        rw [sum3_cons, sum3_cons, e1 a List.mem_cons_self, ih (fun f hf => e1 f (List.mem_cons_of_mem _ hf))]
+    rw [this, sum3_smul_embedV R (fun f : OFace => f.s * ((f.mx - o.x) * f.nx p + (f.my - o.y) * f.ny p))
+      (fun f => f.mx - o.x) (fun f => f.my - o.y) fs, (centroid_identity p c o fs h).1, (centroid_identity p c o fs h).2,
+      ← embedV_smul]
+
+/-- embedded 1-D cell: nodes `x0 + ξ e` on a line with unit direction `e` in 3-D (`x0` a point of the line);
+    the identities of `line_cell_identities` as vector statements. -/
+theorem line_cell_identities_embedded (e x0 : P3) (he : e.dot e = 1) (ξ1 ξ2 s1 s2 : Rat) (hne : ξ1 ≠ ξ2)
+    (h1 : s1 = 1 ∨ s1 = -1) (h2 : s2 = 1 ∨ s2 = -1) :
+    let c := (ξ1 + ξ2) / 2
+    let V := absR (ξ1 - ξ2)
+    let n1 := P3.smul (lineFlip ξ1 c s1) e
+    let n2 := P3.smul (lineFlip ξ2 c s2) e
+    let x1 := x0.add (P3.smul ξ1 e)
+    let x2 := x0.add (P3.smul ξ2 e)
+    let xc := x0.add (P3.smul c e)
+    n1.dot n1 = 1 ∧ n2.dot n2 = 1
+    ∧ 0 < s1 * n1.dot (x1.sub xc) ∧ 0 < s2 * n2.dot (x2.sub xc)
+    ∧ (P3.smul s1 n1).add (P3.smul s2 n2) = P3.zero
+    ∧ s1 * (x1.sub x0).dot n1 + s2 * (x2.sub x0).dot n2 = V
+    ∧ (P3.smul (s1 * (x1.sub x0).dot n1) (x1.sub x0)).add (P3.smul (s2 * (x2.sub x0).dot n2) (x2.sub x0))
+        = P3.smul (2 * V) (xc.sub x0) := by
+  intro c V n1 n2 x1 x2 xc
+  obtain ⟨a1, a2, a3, a4, a5⟩ := line_cell_identities ξ1 ξ2 s1 s2 hne h1 h2
+  have hfl : ∀ ξ s : Rat, lineFlip ξ c s * lineFlip ξ c s = 1 := by
+    intro ξ s; unfold lineFlip; split <;> ring
+  have hd : ∀ a b : Rat, (P3.smul a e).dot (P3.smul b e) = a * b := by
+    intro a b; rw [P3.dot_smul_left, P3.dot_smul_right, he]; ring
+  have hx1 : x1.sub x0 = P3.smul ξ1 e := by ext <;> simp [x1]
+  have hx2 : x2.sub x0 = P3.smul ξ2 e := by ext <;> simp [x2]
+  have hxc : xc.sub x0 = P3.smul c e := by ext <;> simp [xc]
+  have hc1 : x1.sub xc = P3.smul (ξ1 - c) e := by ext <;> simp [x1, xc] <;> ring
+  have hc2 : x2.sub xc = P3.smul (ξ2 - c) e := by ext <;> simp [x2, xc] <;> ring
+  refine ⟨?_, ?_, ?_, ?_, ?_, ?_, ?_⟩
+  · show (P3.smul _ e).dot (P3.smul _ e) = 1; rw [hd]; exact hfl _ _
+  · show (P3.smul _ e).dot (P3.smul _ e) = 1; rw [hd]; exact hfl _ _
+  · rw [hc1]; show 0 < s1 * (P3.smul _ e).dot (P3.smul _ e); rw [hd]
+    have e1 : s1 * (lineFlip ξ1 c s1 * (ξ1 - c)) = s1 * lineFlip ξ1 ((ξ1 + ξ2) / 2) s1 * (ξ1 - (ξ1 + ξ2) / 2) := by
+      simp only [c]; ring
+    rw [e1]; exact a1
+  · rw [hc2]; show 0 < s2 * (P3.smul _ e).dot (P3.smul _ e); rw [hd]
+    have e2 : s2 * (lineFlip ξ2 c s2 * (ξ2 - c)) = s2 * lineFlip ξ2 ((ξ1 + ξ2) / 2) s2 * (ξ2 - (ξ1 + ξ2) / 2) := by
+      simp only [c]; ring
+    rw [e2]; exact a2
+  · ext
+    · simp only [P3.add_x, P3.smul_x, P3.zero_x, n1, n2]
+      linear_combination e.x * a3
+    · simp only [P3.add_y, P3.smul_y, P3.zero_y, n1, n2]
+      linear_combination e.y * a3
+    · simp only [P3.add_z, P3.smul_z, P3.zero_z, n1, n2]
+      linear_combination e.z * a3
+  · rw [hx1, hx2]; show s1 * (P3.smul _ e).dot (P3.smul _ e) + s2 * (P3.smul _ e).dot (P3.smul _ e) = V
+    rw [hd, hd]; linarith
+  · rw [hx1, hx2, hxc]
+    show (P3.smul (s1 * (P3.smul _ e).dot (P3.smul _ e)) _).add (P3.smul (s2 * (P3.smul _ e).dot (P3.smul _ e)) _) = _
+    rw [hd, hd]
+    ext
+    · simp only [P3.add_x, P3.smul_x]; linear_combination e.x * a5
+    · simp only [P3.add_y, P3.smul_y]; linear_combination e.y * a5
+    · simp only [P3.add_z, P3.smul_z]; linear_combination e.z * a5
+
+
+/-- … with the cell centre returned by the model: Σ sign ((x_f−O)·n_f)(x_f−O) = 3·V·(Φ(ctr) − O). -/
+theorem embedded_centroid_div (R : M3) (b : P3) (hR : R.Orth) (p : Rat) (c o ctr : P2) (fs : List OFace) (h : Closed fs)
+    (hc : centroidOf (wOriented p c) c fs = some ctr) :
+    sum3 (fun f => P3.smul (f.s * ((embedP R b ⟨f.mx, f.my⟩).sub (embedP R b o)).dot (embedV R ⟨f.nx p, f.ny p⟩))
+          ((embedP R b ⟨f.mx, f.my⟩).sub (embedP R b o))) fs
+      = P3.smul (3 * cellArea p c fs) ((embedP R b ctr).sub (embedP R b o)) := by
+  rw [(embedded_cell_identities R b hR p c o fs h).2.2.2, embedP_sub, ← embedV_smul, ← embedV_smul]
+  unfold centroidOf at hc
+  split at hc
+  · cases hc
+  · rename_i hV
+    injection hc with hc
+    subst hc
+    have hV' : cellArea p c fs ≠ 0 := hV
+    simp only [cellArea, cellMomX, cellMomY] at hV' ⊢
+    congr 1
+    congr 1 <;> field_simp
+
+/-! ## 3-D positivity -/
+
+/-- Star-shaped cells: if the point `tc` the sub-tetrahedra are taken about lies strictly inside every face
+    plane (faces outward oriented by their sign, planar, star-shaped), every sub-tetrahedron volume is ≥ 0,
+    every face cone and the cell volume are > 0 (so the code's negative-volume test never fires). -/
+theorem star_cell_volume_pos (cell : Cell3) (tc : P3) (hne : cell ≠ []) (hpl : PlanarStar cell)
+    (hnp : NodesPlanar cell) (hst : StarAbout tc cell) :
+    (∀ f ∈ cell, ∀ e ∈ cycEdges f.1, 0 ≤ tetVol tc f e) ∧ (∀ f ∈ cell, 0 < faceVol tc f) ∧ 0 < cellVol3 tc cell :=
+  star_cell_volume_pos_aux cell tc hne hpl hnp hst
+
+/-- Convex cells with outward oriented faces are star-shaped about the temporary centre the code uses
+    (edge-weighted mean of the face centres) … -/
+theorem convex_cell_star (cell : Cell3) (hc : ConvexCell cell) : StarAbout (tempCenter3 cell) cell :=
+  convex_star_aux cell hc
+
+/-- … hence their computed volume is positive. -/
+theorem convex_cell_volume_pos (cell : Cell3) (hne : cell ≠ []) (hpl : PlanarStar cell) (hnp : NodesPlanar cell)
+    (hc : ConvexCell cell) : 0 < cellVol3 (tempCenter3 cell) cell :=
+  (star_cell_volume_pos cell _ hne hpl hnp (convex_cell_star cell hc)).2.2
+
+/-- Tetrahedron with positive orientation `((p1−p0)×(p2−p0))·(p3−p0) > 0`: all hypotheses of the general theorems
+    hold, the computed volume is det/6, all sub-tetrahedra about the code's centre are ≥ 0. -/
+theorem tet_cell_positive (p0 p1 p2 p3 : P3) (hdet : 0 < det3 (p1.sub p0) (p2.sub p0) (p3.sub p0)) :
+    EdgePaired (tetCell p0 p1 p2 p3) ∧ PlanarStar (tetCell p0 p1 p2 p3) ∧ NodesPlanar (tetCell p0 p1 p2 p3)
+    ∧ StarAbout (tempCenter3 (tetCell p0 p1 p2 p3)) (tetCell p0 p1 p2 p3)
+    ∧ (∀ tc, cellVol3 tc (tetCell p0 p1 p2 p3) = det3 (p1.sub p0) (p2.sub p0) (p3.sub p0) / 6)
+    ∧ (∀ f ∈ tetCell p0 p1 p2 p3, ∀ e ∈ cycEdges f.1, 0 ≤ tetVol (tempCenter3 (tetCell p0 p1 p2 p3)) f e)
+    ∧ 0 < cellVol3 (tempCenter3 (tetCell p0 p1 p2 p3)) (tetCell p0 p1 p2 p3) := by
+  have hnd := tet_nondegenerate p0 p1 p2 p3 (ne_of_gt hdet)
+  have hpl := tet_planarStar p0 p1 p2 p3 hnd
+  have hst := tet_star p0 p1 p2 p3 hdet
+  have hpos := star_cell_volume_pos (tetCell p0 p1 p2 p3) _ (by simp [tetCell]) hpl (tet_nodesPlanar p0 p1 p2 p3) hst
+  exact ⟨tet_paired p0 p1 p2 p3, hpl, tet_nodesPlanar p0 p1 p2 p3, hst,
+    fun tc => tet_volume p0 p1 p2 p3 tc (ne_of_gt hdet), hpos.1, hpos.2.2⟩
+
+/-- Parallelepiped `p + [0,1]u + [0,1]v + [0,1]w` (every affine image of a Cartesian cell, node order and signs of
+    the tensor constructor) with `(u×v)·w > 0`: all hypotheses hold, the computed volume is the determinant,
+    all sub-tetrahedra are ≥ 0. -/
+theorem para_cell_positive (p u v w : P3) (hdet : 0 < det3 u v w) :
+    EdgePaired (paraCell p u v w) ∧ PlanarStar (paraCell p u v w) ∧ NodesPlanar (paraCell p u v w)
+    ∧ StarAbout (tempCenter3 (paraCell p u v w)) (paraCell p u v w)
+    ∧ (∀ tc, cellVol3 tc (paraCell p u v w) = det3 u v w)
+    ∧ (∀ f ∈ paraCell p u v w, ∀ e ∈ cycEdges f.1, 0 ≤ tetVol (tempCenter3 (paraCell p u v w)) f e)
+    ∧ 0 < cellVol3 (tempCenter3 (paraCell p u v w)) (paraCell p u v w) := by
+  have hpl := para_planarStar_cell p u v w (ne_of_gt hdet)
+  have hst := para_star p u v w hdet
+  have hpos := star_cell_volume_pos (paraCell p u v w) _ (by simp [paraCell]) hpl (para_nodesPlanar_cell p u v w) hst
+  exact ⟨para_paired p u v w, hpl, para_nodesPlanar_cell p u v w, hst,
+    fun tc => para_volume p u v w tc (ne_of_gt hdet), hpos.1, hpos.2.2⟩
+
 /-
-Not proved (stated for the record; checked by the oracle on the real code only):
-* the identities on the legacy (non-oriented) 2-D path for convex cells;
-* positivity of the sub-tetrahedra / cell volume in 3-D for convex cells.
+Not proved (checked by the oracle on the real code only):
+* that a face whose two sides disagree in the legacy path (non-convex cell) gets a meaningful normal — the code
+  itself calls this decision arbitrary;
+* the hypotheses `EdgePaired` / `PlanarStar` / `NodesPlanar` / `ConvexCell` for polyhedra other than tetrahedra
+  and parallelepipeds (they are assumptions on the grid there).
 -/
 
 /-! ## non-vacuity: concrete instances -/
@@ -463,6 +731,20 @@ example : lineFlip 0 (1 / 2) 1 = -1 ∧ lineFlip 1 (1 / 2) 1 = 1 := by decide +k
 example : (dirEdges (tetCell ⟨0, 0, 0⟩ ⟨1, 0, 0⟩ ⟨0, 1, 0⟩ ⟨0, 0, 1⟩)).Perm
     ((dirEdges (tetCell ⟨0, 0, 0⟩ ⟨1, 0, 0⟩ ⟨0, 1, 0⟩ ⟨0, 0, 1⟩)).map Prod.swap) := by decide +kernel
 example : ∀ f ∈ tetCell ⟨0, 0, 0⟩ ⟨1, 0, 0⟩ ⟨0, 1, 0⟩ ⟨0, 0, 1⟩, (faceN f.1).dot (faceN f.1) ≠ 0 := by decide +kernel
+/-- legacy path: a clockwise stored unit square with arbitrary signs, seen from its centre -/
+example : let fs : List OFace := [⟨⟨1, 0⟩, ⟨0, 0⟩, 1⟩, ⟨⟨1, 0⟩, ⟨1, 1⟩, -1⟩, ⟨⟨0, 1⟩, ⟨1, 1⟩, 1⟩, ⟨⟨0, 1⟩, ⟨0, 0⟩, -1⟩]
+    (∀ f ∈ fs, f.chi (tempCenter fs) ≠ 0) ∧ fs.map (reorient (tempCenter fs)) = polyFaces [⟨0, 0⟩, ⟨1, 0⟩, ⟨1, 1⟩, ⟨0, 1⟩]
+    ∧ cellAreaW (wAbs (tempCenter fs)) fs = 1 := by decide +kernel
+/-- a rational rotation (Cayley) is orthogonal -/
+example : M3.Orth ⟨⟨1 / 3, -2 / 3, 2 / 3⟩, ⟨2 / 3, 2 / 3, 1 / 3⟩, ⟨-2 / 3, 1 / 3, 2 / 3⟩⟩ := by
+  unfold M3.Orth; norm_num
+example : (⟨3 / 5, 4 / 5, 0⟩ : P3).dot ⟨3 / 5, 4 / 5, 0⟩ = 1 := by decide +kernel
+example : 0 < det3 ⟨1, 0, 0⟩ ⟨1, 2, 0⟩ ⟨1 / 2, 1, 3⟩ := by decide +kernel
+/-- the unit cube is convex in the sense of `ConvexCell` -/
+example : ∀ f ∈ paraCell ⟨0, 0, 0⟩ ⟨1, 0, 0⟩ ⟨0, 1, 0⟩ ⟨0, 0, 1⟩, 0 < (f.1.length : Rat) ∧
+    (∀ g ∈ paraCell ⟨0, 0, 0⟩ ⟨1, 0, 0⟩ ⟨0, 1, 0⟩ ⟨0, 0, 1⟩, f.2 * ((faceCtr g.1).sub (mean3 f.1)).dot (faceN f.1) ≤ 0) ∧
+    ∃ g ∈ paraCell ⟨0, 0, 0⟩ ⟨1, 0, 0⟩ ⟨0, 1, 0⟩ ⟨0, 0, 1⟩, f.2 * ((faceCtr g.1).sub (mean3 f.1)).dot (faceN f.1) < 0 := by
+  decide +kernel
 example : tensorVolumeSum3 [0, 1, 3] [0, 2] [1, 3 / 2] = 3 := by decide +kernel
 example : ∀ p ∈ pairs [0, 1, 3], p.1 ≠ p.2 := by decide +kernel
 example : NodesPlanar (tetCell ⟨0, 0, 0⟩ ⟨1, 0, 0⟩ ⟨0, 1, 0⟩ ⟨0, 0, 1⟩) := tet_nodesPlanar _ _ _ _
